@@ -39,6 +39,13 @@ def run(res, tier, replay):
             if rng.random() < 0.4: fl += rng.choice([b"M", b"MS", b"MSC", b"MM", b"MSCMSC"])
             if rng.random() < 0.15: fl += b"MSCF" + bytes(12) + rng.choice([bytes(rng.randrange(0, 12)), b""])   # implausible candidate (lengths 0) just before
             data += fl
+            if i % 8 == 5 and j == 0:
+                # a look-alike in front: a cabinet whose first file entry names a folder that does not exist and whose declared size reaches
+                # over the real cabinets behind it - not a cabinet in strict mode, whatever other parameters were set before the search
+                import struct as _s14
+                la = bytearray(gen.cab_single(rng, nfolders=1, methods=[("none",)]).files["in0.cab"])
+                fo_ = _s14.unpack_from("<I", la, 16)[0]; _s14.pack_into("<H", la, fo_ + 8, rng.choice([7, 1, 0x7FFF])); _s14.pack_into("<I", la, 8, rng.choice([100000, len(la) + 500, 0x7FFFFFFF]))
+                data += la + filler(rng, rng.choice([0, 3, 30]))
             if i % 8 == 1:
                 # the smallest well-formed cabinets: one folder without data blocks, only empty members with one-letter names (62 bytes and up);
                 # the whole searched file stays below 71 bytes
@@ -55,7 +62,9 @@ def run(res, tier, replay):
                 c = gen.cab_single(rng, nfolders=1)
             offs.append(len(data)); cabs.append(c); data += c.files["in0.cab"]
         data += filler(rng, rng.choice([0, 1, 19, 20, 40]) if i % 8 != 1 else rng.choice([0, 1, 3]))
-        sc = scenario.Scn().file("in0.cab", bytes(data)).op("cab_new").op("cab_param", 0, bufsz).op("cab_search", "c0", "in0.cab")
+        sc = scenario.Scn().file("in0.cab", bytes(data)).op("cab_new").op("cab_param", 0, bufsz)
+        if i % 2 == 1: sc.op("cab_param", 2, rng.choice([4096, 4, 65536])).op("cab_param", 1, 0)      # parameters of the decompressor proper: no business of the search
+        sc.op("cab_search", "c0", "in0.cab")
         for j in range(ncab):
             for mi in range(len(cabs[j].members)): sc.op("cab_extract", "c0", mi, "out%d_%d" % (j, mi), j)
         scns.append(sc); meta.append((offs, cabs, bufsz, bytes(data)))
